@@ -15,6 +15,7 @@ mod c11;
 mod c12;
 mod c13;
 mod c14;
+mod c16;
 mod c18;
 mod c19;
 mod c20;
@@ -35,6 +36,7 @@ fn main() {
         "C12" => Some(c12::check()),
         "C13" => Some(c13::check()),
         "C14" => Some(c14::check()),
+        "C16" => Some(c16::check()),
         "C18" => Some(c18::check()),
         "C19" => Some(c19::check()),
         "C20" => Some(c20::check()),
